@@ -37,7 +37,7 @@ def work(ctx, tier):
     rng = common.rng_for(ctx, "main")
     n = (9000 if tier == "quick" else 250000) // ctx.nshards
     for k in range(n):
-        sc = gen.rand_scenario(rng, p_special=0.1, specials=("abort", "nested_exh", "nested_open", "cancel", "kbd", "sysexit", "genexit", "base"), p_budget=0.25, p_handler=0.35, p_abort=0.2,
+        sc = gen.rand_scenario(rng, p_special=0.1, specials=("abort", "nested_exh", "nested_open", "cancel", "kbd", "sysexit", "genexit", "base", "timeout", "timeout"), p_budget=0.25, p_handler=0.35, p_abort=0.2,
                                p_breaker=1.0, ncalls=(1, 6), placements=(k % 6 == 0))
         if k % 8 == 0:
             sc["cfg"]["no_retry"] = True
@@ -48,6 +48,28 @@ def work(ctx, tier):
         for e in common.pick_entries(rng, ENTRIES, 2):
             _one(ctx, sc, e, stats, sample=(k < 1 and ctx.shard == 0))
         ctx.inc("random_scenarios")
+    # raising attempt hooks (observability-style callbacks): whatever the record's kind, an admitted call reports exactly once
+    m = (1500 if tier == "quick" else 40000) // ctx.nshards
+    for k in range(m):
+        sc = gen.rand_scenario(rng, max_attempts=(1, 3), p_special=0.0, p_budget=0.1, p_handler=0.2, p_abort=0.0, p_breaker=1.0, ncalls=(1, 2))
+        sc["place"]["hooks"] = rng.choice(["call", "policy", "both"])
+        sc["cfg"]["breaker"]["pre"] = rng.choice([[], sc["cfg"]["breaker"]["pre"]])
+        if k % 3 == 0:
+            sc["cfg"]["no_retry"] = True
+        sc["fault"] = {"kind": "cb", "cb": rng.choice(["astart", "aend", "aend"]), "at": rng.randint(0, 2), "exc": rng.choice(["RuntimeError", "ValueError", "KeyError"])}
+        for e in common.pick_entries(rng, ENTRIES, 2):
+            recs, h, w = rig.run(sc, e)
+            ctx.inc("runs")
+            ctx.inc("calls", len(recs))
+            for rec in recs:
+                spy = [x for x in rec.trace if x[0].startswith("br.")]
+                if not rec.fault_fired or not spy or spy[0][0] != "br.allow" or not spy[0][1]:
+                    continue
+                n = len(spy) - 1
+                ctx.cnt["attempt_hook_fault_calls"] += 1
+                if n != 1:
+                    ctx.viol("multiple-records" if n > 1 else "no-record", f"[{e} call#{rec.idx}] {sc['fault']['cb']} hook raised; admitted call reported {n} times: {spy[1:]}", common.payload(sc, e, rec.idx))
+        ctx.inc("attempt_hook_fault_scenarios")
     for i, sc in enumerate(gen.sweep_scenarios(max_len=3, stride=5 if tier == "quick" else 1)):
         if i % ctx.nshards != ctx.shard:
             continue
@@ -69,6 +91,7 @@ def conclude(ctx):
         "record:br.failure/special": (cells.get("record:br.failure/special", 0), 20),
         "admitted_calls_with_retries": (ctx.cnt["admitted_calls_with_retries"], 500),
         "rejected_calls": (ctx.cnt["rejected_calls"], 200),
+        "attempt_hook_fault_calls": (ctx.cnt["attempt_hook_fault_calls"], 200),
     }
     return dict(
         rule=(
@@ -80,7 +103,7 @@ def conclude(ctx):
         nontrivial=len(ctx.sets["nontrivial"]),
         floors=floors,
         assumptions=common.ASSUME_COMMON + [
-            "raising non-hook callbacks are excluded here (C08 owns them; the property does not say which record they deserve)",
+            "for raising attempt hooks only the count (exactly one record) is asserted, not the kind; other raising non-hook callbacks are C08's business",
             "KF2: call() deliberately ignores a final nested CircuitOpenError (recognised only by that mechanism)",
         ],
         exhaustive=False,
